@@ -20,13 +20,17 @@ def enumerate_rows(run, module, cfg, tag="ROW", workers=1, heap="6g", timeout=18
 
 
 def judge(run, trace_module, adapter, fn, items, sig, corrupt, what, nontrivial=None, fresh_process=False, chunk=1000,
-          sample_fmt=None, nproc=None):
+          sample_fmt=None, nproc=None, hard_timeout=None):
     kw = {'fresh_every': 1, 'chunksize': 1, 'initname': None} if fresh_process else {}
     if nproc:
         kw['nproc'] = nproc
+    if hard_timeout:
+        kw['hard_timeout'] = hard_timeout
     for i, it in enumerate(items):
         it.setdefault("id", i)
     traces = pool.map_items(adapter, fn, items, **kw)
+    if pool.HANGS:
+        run.notes["calls_that_did_not_return"] = len(pool.HANGS)      # the workers were killed; each is an observation (on_hang)
     traces = [t for t in traces if t is not None and not t.get("skip")]
     skipped = len(items) - len(traces)
     if not traces:
